@@ -1,5 +1,5 @@
 ------------------------------- MODULE Gen_C08 -------------------------------
-EXTENDS ResponseCheck, Json, CSV, SequencesExt
+EXTENDS HeaderUniverse, Json, CSV, SequencesExt
 
 Keys == {"200", "201", "302", "404", "2XX", "3XX", "4XX", "default"}
 Statuses == {0, 100, 200, 201, 204, 300, 301, 302, 303, 304, 307, 308, 404, 500, 600}
@@ -42,6 +42,15 @@ Init ==
         case = [part |-> "def", hd |-> "none", hv |-> "absent", decl |-> "json", ct |-> Json, req |-> rq, ctText |-> Render(Json),
                 wrap |-> w, body |-> (CASE w \in {"items", "itemsAnyOf"} -> Arr(<<b>>) [] w = "prop" -> O(<<"in">>, <<b>>) [] OTHER -> b),
                 excludeBody |-> FALSE, excludeWO |-> xw, multi |-> mu]
+   \* part "hdr": declared headers with schemas of every kind x texts (empty, partly empty, ill-typed, conforming), see HeaderUniverse
+   \/ \E h \in OneHeader, mu \in BOOLEAN, bd \in {<<"none", FALSE>>, <<"json", FALSE>>, <<"json", TRUE>>} :
+        /\ OneHeaderOK(h)
+        /\ case = [part |-> "hdr", hdrs |-> <<h>>, extra |-> FALSE, decl |-> bd[1], ct |-> Json, req |-> "qw", ctText |-> Render(Json),
+                   body |-> O(<<"q">>, <<Num(4)>>), excludeBody |-> bd[2], excludeWO |-> FALSE, multi |-> mu]
+   \/ \E hh \in TwoHeaders, mu \in BOOLEAN, xt \in BOOLEAN :
+        /\ TwoOK(hh[1]) /\ TwoOK(hh[2])
+        /\ case = [part |-> "hdr", hdrs |-> hh, extra |-> xt, decl |-> "none", ct |-> Json, req |-> "qw", ctText |-> Render(Json),
+                   body |-> O(<<"q">>, <<Num(4)>>), excludeBody |-> FALSE, excludeWO |-> FALSE, multi |-> mu]
 Next == UNCHANGED case
 Spec == Init /\ [][Next]_case
 Emit == CSVWrite("%1$s", <<ToJson(case)>>, "cases.ndjson")
